@@ -54,7 +54,7 @@ pub fn hash64<T: Hash>(t: &T) -> u64 {
     h.finish()
 }
 
-#[derive(Default)]
+#[derive(Default, Serialize, Deserialize)]
 pub struct Stats {
     pub evals: u64,
     pub nontrivial: HashSet<u64>,
